@@ -19,8 +19,8 @@ RULE = ("case = generated enum (weighted to permuted declaration order, single-v
         "limit touched, or non-identity declaration order; distinct by (repr, discriminants, order, configuration)")
 
 PROFILE = S.profile(renames=0.05, dups=0.0, attrs=0.1, orders=["identity", "reverse", "perm", "perm", "perm"],
-                    anchors=["min", "min", "max", "max", "zero", "neg", "rand"],
-                    shapes=["gapless", "holes", "holes", "many", "many"])
+                    anchors=["min", "min", "max", "max", "zero", "neg", "rand", "narrow_max", "narrow_min"],
+                    shapes=["gapless", "holes", "holes", "many", "many", "lots"])
 
 
 @st.composite
